@@ -311,7 +311,10 @@ class Ref:
         op: int = 0,
         stamps: Optional[Dict[str, int]] = None,
         run_debug: bool = True,
+        lenient_missing: bool = False,
     ) -> None:
+        self.lenient_missing = lenient_missing
+        self.missing: List[str] = []
         self.failing = set(failing)
         self.selected = selected
         self.pre = pre or {}
@@ -369,6 +372,9 @@ def ref_run(P: Dict[str, Any], args: Any, R: Optional[Ref] = None, active: bool 
             env[name] = args[i]
         elif d is not None:
             env[name] = dec(d["d"])
+        elif R.lenient_missing:
+            env[name] = None
+            R.missing.append(name)
         else:
             raise MissingArg(name)
     for st in P["body"]:
